@@ -34,6 +34,8 @@ type RC struct {
 	troles     *timerRoles
 	clusterRec map[*FuncInfo]*Analysis
 	verifiers  []*FuncInfo
+	cfgNonNil  map[string]bool
+	cfgNonZero map[string]bool
 }
 
 var apiNames = []string{"Start", "Reset", "OnReceive", "OnTimeout", "OnTransaction", "OnNewTransaction"}
